@@ -6,7 +6,7 @@
 From Coq Require Import ZArith List Bool.
 From DV Require Import Model.PyPrims Model.C09AlphaTypes Model.C09Alphabets Model.C09Model Model.C09Spec
   Model.C09Nexus Model.C09Convert Proofs.C09Text Proofs.C09Fasta Proofs.C09PhylipInst Proofs.C09NexusProofs
-  Proofs.C09Main Proofs.C09Examples.
+  Proofs.C09NexusStd Proofs.C09Main Proofs.C09Examples.
 Import ListNotations.
 Open Scope Z_scope.
 
@@ -89,11 +89,8 @@ Print Assumptions phylip_continuous_roundtrip.
    block), case-sensitive or case-insensitive taxon labels: the reader applied to the tokens the
    writer produced (BEGIN .. DIMENSIONS .. FORMAT .. MATRIX rows .. END) returns exactly one
    matrix of the same data type with the same rows, the namespace is the list of labels, and
-   the three ends of line after END; are left.
-   Full statement (for every data type): NOT proved for STANDARD / restriction / infinite sites,
-   where the writer emits SYMBOLS="..." in the iteration order of a Python set and the reader
-   builds a new alphabet from it: those are covered by the correspondence run only. *)
-Theorem nexus_chars_roundtrip_partial : forall (lower : text -> text) (dt : dtype) (simple cs : bool)
+   the three ends of line after END; are left. *)
+Theorem nexus_chars_roundtrip : forall (lower : text -> text) (dt : dtype) (simple cs : bool)
     (m : matrix) (nchar : Z),
   fixed_dtype dt = true ->
   m <> [] -> 1 <= nchar ->
@@ -107,7 +104,38 @@ Theorem nexus_chars_roundtrip_partial : forall (lower : text -> text) (dt : dtyp
          (if simple then nx_init [] None cs else nx_init (map fst m) (Some (len m)) cs) toks
        = Ok (st', [mkBR dt (alphabet_of_dtype dt) m (map fst m) None None], [EOL; EOL; EOL]).
 Proof. exact nexus_chars_roundtrip_l. Qed.
-Print Assumptions nexus_chars_roundtrip_partial.
+Print Assumptions nexus_chars_roundtrip.
+
+(* NEXUS, token level, the data types written as DATATYPE=STANDARD SYMBOLS="..." (standard,
+   restriction sites, infinite sites).  `sym_order` is the order in which the writer's Python set
+   of fundamental symbols is iterated (hash dependent): ANY duplicate-free enumeration of them.
+   The reader builds a new alphabet b from SYMBOLS, GAP and MISSING; state indices differ from
+   the writer's alphabet a, so the conclusion is the property's own: the same taxa in the same
+   order, each with the same sequence of states BY SYMBOL (str(state)). *)
+Theorem nexus_chars_roundtrip_standard : forall (lower : text -> text) (dt : dtype) (a : alphabet)
+    (sym_order : list text) (simple cs : bool) (m : matrix) (nchar : Z),
+  std_dtype dt = true -> std_alphabet_ok a = true ->
+  same_set sym_order (fundamental_symbols [a]) = true -> texts_distinct sym_order = true ->
+  m <> [] -> 1 <= nchar ->
+  forallb label_token_ok (map fst m) = true ->
+  NoDup (map (keyf lower cs) (map fst m)) ->
+  forallb (fun r => forallb (valid_cell a) (snd r)) m = true ->
+  rectangular nchar m = true ->
+  exists toks st' b rows',
+    write_chars_block dt [a] sym_order (mkNW simple None None) m = Ok toks
+    /\ read_chars_block lower
+         (if simple then nx_init [] None cs else nx_init (map fst m) (Some (len m)) cs) toks
+       = Ok (st', [mkBR DtStandard b rows' (map fst m) None None], [EOL; EOL; EOL])
+    /\ map fst rows' = map fst m
+    /\ map (fun r => map (state_str b) (snd r)) rows' = map (fun r => map (state_str a) (snd r)) m.
+Proof. exact nexus_standard_roundtrip_l. Qed.
+Print Assumptions nexus_chars_roundtrip_standard.
+
+(* the three shipped alphabets written that way satisfy the hypothesis (finite, re-computed) *)
+Theorem standard_alphabets_ok :
+  forallb std_alphabet_ok [alpha_standard; alpha_restriction; alpha_infinite] = true.
+Proof. exact standard_alphabets_ok_l. Qed.
+Print Assumptions standard_alphabets_ok.
 
 (* Conversion: writing an admissible matrix to any of the modelled formats (FASTA with any
    wrapping, any PHYLIP variant, NEXUS DATA or CHARACTERS block), reading it back and writing
